@@ -45,6 +45,9 @@ BadSwap(p) == WithPres(p, [commute |-> FALSE, flip |-> FALSE, badswap |-> TRUE])
 \* the invalid flip: a test whose result has a second use (sharedcmp) / a float test (fltbranch: NaN)
 BadFlip(p) == WithPres(p, [commute |-> FALSE, flip |-> TRUE, badswap |-> FALSE])
 HasBadFlip(p) == p.tpl \in {"sharedcmp", "fltbranch"}
+\* the bodies of the if and of the else exchanged, the test untouched (C04 names this edit)
+HasExchange(p) == p.tpl \in {"branch", "sharedcmp", "fltbranch"} /\ p.thenE # p.elseE
+Exchange(p) == [p EXCEPT !.thenE = p.elseE, !.elseE = p.thenE]
 
 Edge(p, q, kind) ==
   LET same == SameBehaviour(p, q) IN
@@ -54,6 +57,7 @@ Edge(p, q, kind) ==
 EdgesOf(p) ==
   {Edge(p, q, "edit") : q \in Neighbours(p)} \cup {Edge(p, BadSwap(p), "badswap")}
     \cup (IF HasBadFlip(p) THEN {Edge(p, BadFlip(p), "badflip")} ELSE {})
+    \cup (IF HasExchange(p) THEN {Edge(p, Exchange(p), "exchange")} ELSE {})
     \cup {Edge(p, WithPres(p, pr), "refactor") : pr \in {x \in RefPres : Applicable(p, x)}}
 
 OutsOf(p) == LET q == InSeq(p) IN [k \in DOMAIN q |-> [a |-> q[k][1], b |-> q[k][2], r |-> Eval(p, q[k][1], q[k][2])]]
